@@ -589,6 +589,29 @@ func (o *oracles) onWriteCompleted(c *Client, op *histOp, res sm.Result) {
 	}
 }
 
+// onReadIndexCompleted: C06 - the reader is released only after the local
+// applied index has reached an index that is at least the shard's commit index
+// at the moment the request was issued.
+func (o *oracles) onReadIndexCompleted(c *Client) {
+	s := o.s
+	h := c.host
+	if h.nh == nil || h.inc != c.hinc {
+		return
+	}
+	r, ok := h.nh.VerifGetReplica(shardID)
+	if !ok {
+		return
+	}
+	applied := r.Applied()
+	s.ctx.Count("probe.readindex_completed", 1)
+	if applied < c.commitAtIssue {
+		s.ctx.Violate("C06", "stale-read-index", "ReadIndex issued on replica %d when the shard's commit index was %d was released with local applied index %d", h.replicaID, c.commitAtIssue, applied)
+	}
+	if h.role == roleWitness {
+		s.ctx.Violate("C18", "witness-served-read", "ReadIndex completed on witness replica %d", h.replicaID)
+	}
+}
+
 func (o *oracles) checkDeadline(c *Client) {
 	s := o.s
 	if c.host.inc != c.hinc || !c.host.up {
